@@ -18,6 +18,8 @@ SanK(k, n) == IF k <= 0 \/ k > n THEN n ELSE k
 AscendingEps(s, eps)  == \A i \in 1..(Len(s) - 1) : s[i][2] <= s[i + 1][2] + eps
 DescendingEps(s, eps) == \A i \in 1..(Len(s) - 1) : s[i][2] + eps >= s[i + 1][2]
 
+RECURSIVE SumSnd(_)
+SumSnd(S) == IF S = {} THEN 0 ELSE LET x == CHOOSE y \in S : TRUE IN x[2] + SumSnd(S \ {x})   \* sum of second components
 SetMax(S) == CHOOSE m \in S : \A x \in S : x <= m
 SetMin(S) == CHOOSE m \in S : \A x \in S : x >= m
 =============================================================================
